@@ -271,7 +271,9 @@ func init() {
 			}
 			fmt.Fprintf(&sb, "  ⟨%s, %d, %d, %d, %d, %d⟩%s\n", leanStr(s.where), s.kind, s.calls, s.rawUnlocks, s.relocks, s.peerWaits, sep)
 		}
-		sb.WriteString("]\n\nend Chf.Gen\n")
+		sb.WriteString("]\n\n")
+		sb.WriteString(stateAccessTables()) // stateaccess.go: accesses to subscriber state, call edges, counter updates
+		sb.WriteString("end Chf.Gen\n")
 		fmt.Print(sb.String())
 	}
 }
